@@ -453,21 +453,26 @@ pub(crate) fn run_scheduling_solver(
         if rqv.is_multi_node() {
             let v_id = ResourceVariantId::new(0);
             let n_nodes = rqv.get(v_id).n_nodes() as usize;
-            let mut ws: Vec<ThinVec<WorkerId>> = Vec::new();
+            // The selected workers have to be split into node sets group by group: the solver
+            // selects a multiple of n_nodes workers in each worker group, and a multi-node task
+            // must not span groups
+            let mut selected: Vec<(&str, Vec<WorkerId>)> = Vec::new();
             for worker in &workers {
                 if let Some(v) = placements.get(&(worker.id, resource_rq_id, v_id)) {
                     let count = solution.get_value(*v).round() as u32;
                     if count > 0 {
-                        if let Some(last) = ws.last_mut()
-                            && last.len() < n_nodes
-                        {
-                            last.push(worker.id);
-                        } else {
-                            let mut workers = ThinVec::with_capacity(n_nodes);
-                            workers.push(worker.id);
-                            ws.push(workers);
+                        let group_name = worker.configuration.group.as_str();
+                        match selected.iter_mut().find(|(name, _)| *name == group_name) {
+                            Some((_, ids)) => ids.push(worker.id),
+                            None => selected.push((group_name, vec![worker.id])),
                         }
                     }
+                }
+            }
+            let mut ws: Vec<ThinVec<WorkerId>> = Vec::new();
+            for (_, ids) in &selected {
+                for chunk in ids.chunks(n_nodes) {
+                    ws.push(chunk.iter().copied().collect());
                 }
             }
             if !ws.is_empty() {
